@@ -241,7 +241,7 @@ def run(chk):
         if chk.quick():
             fixed = [f for k, f in enumerate(fixed) if (k + chk.seed) % 3 == 0 or f[2].startswith('cu')]
         todo = [H.gen_space(rng, p, per, kind, nc) for (p, per, kind, nc) in fixed]
-        todo += [H.gen_space(rng) for _ in range(chk.n(40, 500))]
+        todo += [H.gen_space(rng) for _ in range(chk.n(180, 3000))]
         for sp in todo:
             check_space(chk, drv, sp, stats, chk.n(2, 4))
     finally:
